@@ -86,3 +86,25 @@ Theorem C06_nonvacuous :
   rval (mvread (mvapply s o3)) = [9] ∧ rval (mvread (mvapply (mvapply [] o3) o1)) = [9].
 Proof. exact mv_example. Qed.
 Print Assumptions C06_nonvacuous.
+
+(** Map<K, MVReg> (MVReg leaves) WITHOUT key removes, op-based replication (no state merges), per-actor delivery with duplicates: the sentence of this property for a register stored under a key of a Map - a value is stored under [k] iff a write of it
+    under [k] is known and no known write of [k] has a strictly greater clock; under causal delivery "greater clock" is "its author had
+    applied it"; under per-actor delivery that reading is too weak (closed counterexample in proofs/MapMVRegNK.v: mapmv_observed_not_enough)
+    and the exact one is given (proofs/MapMVRegNK.v) *)
+From Crdt Require Import model.MVReg model.Map spec.System spec.OrswotSpec spec.OrswotSystem spec.Specs spec.MapSpec spec.MapSystem spec.MapMVRegSpec proofs.MapMVRegNK.
+Theorem C06_mapmv_stored_iff (H : list (oprec (mop mvop))) :
+  mvhist_ok_nk H -> forall (s : cmap (list (gmap N N * N))) (K : gset nat) (k : N) (c : gmap N N) (v : N), mvreach_nk H s K ->
+  ((c, v) ∈ mv_state_vals s k <->
+    (exists d, MUp d k (MVPut c v) ∈ known_ops H K) /\
+    forall d' c' v', MUp d' k (MVPut c' v') ∈ known_ops H K -> vlt c c' = false).
+Proof. exact (mapmv_stored_iff_nk H). Qed.
+Print Assumptions C06_mapmv_stored_iff.
+
+Theorem C06_mapmv_clock_is_observation_causal (H : list (oprec (mop mvop))) (i : nat) (ri : oprec (mop mvop)) (di : dot) (ki : N) (ci : gmap N N) (vi : N)
+    (j : nat) (rj : oprec (mop mvop)) (dj : dot) (kj : N) (cj : gmap N N) (vj : N) :
+  mvhist_ok_nk_causal H ->
+  H !! i = Some ri -> op_val ri = MUp di ki (MVPut ci vi) ->
+  H !! j = Some rj -> op_val rj = MUp dj kj (MVPut cj vj) ->
+  (vlt cj ci = true <-> j ∈ op_deps ri).
+Proof. exact (mapmv_clock_observed_causal H i ri di ki ci vi j rj dj kj cj vj). Qed.
+Print Assumptions C06_mapmv_clock_is_observation_causal.
